@@ -128,7 +128,24 @@ class Forward:
                     raise Bad("a C string parameter is dereferenced (one character) instead of being passed on: %s" % norm.render(P, e), e)
                 return [Leaf(l.key, "deref", l.node) for l in ls]
             raise Bad("argument is transformed by unary %s" % e["op"], e)
-        if k in ("BinaryOperator", "CompoundAssignOperator", "ConditionalOperator"):
+        if k == "ConditionalOperator":
+            # `p != nullptr ? <form of p> : <default>`: the conditional spelling of "forward p unless it is null"
+            c0 = sc(e["c"][0])
+            if c0 is not None and c0.get("k") == "BinaryOperator" and c0.get("op") in ("!=", "=="):
+                sides = [sc(z) for z in c0["c"]]
+                nul = [z for z in sides if z.get("k") in ("CXXNullPtrLiteralExpr", "GNUNullExpr") or (z.get("k") == "IntegerLiteral" and z.get("v") == 0)]
+                par = [z for z in sides if z.get("k") == "DeclRefExpr" and z.get("r") in self.params]
+                if len(nul) == 1 and len(par) == 1:
+                    nonnull, other = (e["c"][1], e["c"][2]) if c0["op"] == "!=" else (e["c"][2], e["c"][1])
+                    ls = self.leaves(nonnull, depth + 1)
+                    try:
+                        dl = self.leaves(other, depth + 1)
+                    except Unknown:
+                        dl = []
+                    if {l.key for l in ls if l.key is not None} == {par[0]["r"]} and all(l.key is None for l in dl):
+                        return ls
+            raise Bad("argument is computed (%s), not forwarded" % norm.render(P, e), e)
+        if k in ("BinaryOperator", "CompoundAssignOperator"):
             raise Bad("argument is computed (%s), not forwarded" % norm.render(P, e), e)
         if k in norm.CASTS:
             return self.leaves(e["c"][0], depth + 1)
@@ -150,6 +167,12 @@ class Forward:
             srcs.append(("assign", a["c"][1]))
             self.check_guards(key, a)
         stores = self.elem_stores.get(key, [])
+        # filled through a standard algorithm (std::copy into local[i].begin(), ...): a form this analysis does not model
+        for x in F.walk():
+            if x.get("k") == "CallExpr" and P.d(x.get("callee")).get("qn", "") in ("std::copy", "std::copy_n", "std::transform", "std::fill", "std::fill_n", "memcpy", "std::memcpy", "std::move"):
+                outs = x["c"][-1:] if P.d(x["callee"])["qn"] not in ("memcpy", "std::memcpy") else x["c"][1:2]
+                if any(y.get("k") == "DeclRefExpr" and y.get("r") == key for o in outs for y in F.walk(o)) and len(x["c"]) > 2:
+                    raise Unknown("local %s is filled by %s" % (self.name(key), P.d(x["callee"])["qn"]))
         if stores:
             return self.copy_loop_leaves(key, stores, init)
         leaves = []
@@ -385,6 +408,16 @@ def handle_cast(P, rep, F, call, rule, handle_idx):
             rep.violation(rule, "%s handle" % F.qn, F.nloc(call), F.qn, norm.render(P, base), "world pointer reassigned", key="%s|%s|handle" % (rule, F.qn))
             return
         src = sc(init)
+    # a file-local accessor `World *get_world(void *p) { return static_cast<World *>(p); }`
+    if src is not None and src.get("k") == "CallExpr" and P.d(src.get("callee")).get("k") == "Function":
+        hc = norm.helper_call(P, F, src)
+        if hc is not None:
+            params, body, args, G = hc
+            b0 = sc(body)
+            if b0 is not None and b0.get("k") == "UnaryOperator" and b0.get("op") == "*":      # returned by reference
+                b0 = sc(b0["c"][0])
+            if len(params) == 1 and b0 is not None and b0.get("k") == "DeclRefExpr" and b0.get("r") == params[0]:
+                src = sc(args[0])
     if hk is None:
         # C++ wrapper: the member ptr_ptr_world
         ok = src is not None and astq.is_this_field(P, src, "ptr_ptr_world")
